@@ -330,6 +330,29 @@ func oracleC13(v *View, vd *Verdict) {
 	if leaked > 0 && v.R.Plan.Cfg.Gateway {
 		vd.Add("C13", "C13/goroutine-leak/"+fn[0], "%d gateway goroutines alive %d ms after shutdown: %v", leaked, 3000, fn)
 	}
+	// ... nor a timer chain: a retry timer of an ended session that keeps re-arming itself runs a
+	// goroutine of that session every RetryDelay for ever. After the gateway has returned and the last
+	// session has ended no repo code may arm a timer (raw-peer plans only: a real client has timers
+	// of its own).
+	if v.R.Plan.Cfg.Gateway && len(v.R.Plan.Clients) == 0 {
+		last, all := int64(-1), true
+		for _, sv := range v.Sess {
+			if sv.EndT < 0 {
+				all = false
+			}
+			if sv.EndT > last {
+				last = sv.EndT
+			}
+		}
+		for _, rec := range v.R.Hist {
+			if rec.Ch == "gw" && rec.Kind == "serve-return" && rec.T > last {
+				last = rec.T
+			}
+		}
+		if all && last >= 0 && v.R.LastArmNs > last+nsMs {
+			vd.Add("C13", "C13/timer-armed-after-last-session-ended", "a timer was armed at %d, %d ms after the gateway returned and the last session ended (%d): a retry timer outlives its session", v.R.LastArmNs, (v.R.LastArmNs-last)/nsMs, last)
+		}
+	}
 }
 
 func shortFn(f string) string {
@@ -444,6 +467,16 @@ func genC13(g *Gen, idx int) *Plan {
 		p.Cfg.SN.MaxLatUs = g.Range(300, 2000)
 		p.Cfg.Sched = simrt.SchedCfg{Density: 0.3 + g.Float()*0.7, Overlap: true, StallProb: 0.25, MaxStall: 5 * time.Millisecond, MaxStalls: 60,
 			StallAfter: time.Duration(tW) * time.Millisecond}
+	}
+	if (kind == 4 || kind == 5) && g.Bool(0.6) {
+		// messages wait in the sleep buffer, their (paused) retry timers come round while the client sleeps
+		// and the session ends asleep: nothing of them may be left behind
+		tS := sg.ops[len(sg.ops)-1].AtMs
+		for i := 0; i < int(g.Range(1, 3)); i++ {
+			p.Broker.Injects = append(p.Broker.Injects, BrokerInject{AtMs: g.Range(tS+50, sg.t), Session: "p1", Force: true, Topic: []string{"ab", "n/1"}[g.Intn(2)],
+				Payload: serialPayload("y", i, 2), QoS: uint8(g.Range(1, 2))})
+		}
+		p.Cfg.RetryDelayMs = g.Range(50, 1500)
 	}
 	if kind == 3 && g.Bool(0.5) {
 		// pending broker->client transactions at the moment of the cause
